@@ -68,6 +68,8 @@ type Obligation struct {
 	smtNoQ  string
 	smtFull string
 	noCOI   bool
+	instMode bool
+	smtInst string
 }
 
 type State struct {
@@ -168,6 +170,7 @@ type VC struct {
 	usedAssumptions map[string]bool
 	maxPaths int
 	noDefine int
+	curCase string
 	defCache map[string]string
 	entryCache map[*ssa.Package]*State
 	entryErr map[*ssa.Package]error
@@ -541,6 +544,13 @@ func constRat(cv constant.Value) *big.Rat {
 }
 
 func (vc *VC) zero(T types.Type) Val {
+	if isNamed(T, "strings", "Builder") {
+		return BuilderObj{Len: vc.idx(0)}
+	}
+	if isNamed(T, "bytes", "Buffer") {
+		is := vc.intSort(64)
+		return BufferObj{Content: ConstArray(ArrSort(is, vc.byteSort()), vc.zeroByte()), Base: vc.idx(0), Len: vc.idx(0), Fresh: true}
+	}
 	if name, ok := isOpaqueStruct(T); ok {
 		return vc.ufApp("zero_"+name, OpaqueSort(name))
 	}
@@ -1128,6 +1138,14 @@ func (o *Obligation) SMT(produceModels bool) string {
 	return o.smtVariant(produceModels, false)
 }
 
+// SMTInst: full assumption set with triggered quantifiers instantiated by the generator.
+func (o *Obligation) SMTInst() string {
+	o.noCOI = true
+	o.instMode = true
+	defer func() { o.noCOI = false; o.instMode = false }()
+	return o.smtVariant(false, false)
+}
+
 // SMTFull keeps every assumption (no cone-of-influence pruning): needed when the path
 // itself is infeasible for reasons unrelated to the goal's symbols.
 func (o *Obligation) SMTFull(produceModels bool) string {
@@ -1205,13 +1223,26 @@ func (o *Obligation) smtVariant(produceModels bool, dropQuantified bool) string 
 			body.WriteString("\n")
 		}
 	}
-	for _, a := range assumes {
-		if dropQuantified && strings.Contains(a.E, "(forall ") {
-			continue
+	if o.instMode {
+		var as []string
+		for _, a := range assumes {
+			as = append(as, a.E)
 		}
-		body.WriteString("(assert ")
-		body.WriteString(a.E)
-		body.WriteString(")\n")
+		// definitions are part of the text searched for trigger matches
+		for _, a := range instantiate(as, o.Goal.E, body.String()) {
+			body.WriteString("(assert ")
+			body.WriteString(a)
+			body.WriteString(")\n")
+		}
+	} else {
+		for _, a := range assumes {
+			if dropQuantified && strings.Contains(a.E, "(forall ") {
+				continue
+			}
+			body.WriteString("(assert ")
+			body.WriteString(a.E)
+			body.WriteString(")\n")
+		}
 	}
 	if o.Cover {
 		body.WriteString("(assert " + o.Goal.E + ")\n")
